@@ -4,6 +4,8 @@ import (
 	"fmt"
 	"go/types"
 	"strings"
+
+	"golang.org/x/tools/go/ssa"
 )
 
 // Env is the context in which a contract expression is translated to SMT.
@@ -466,6 +468,19 @@ func (env *Env) trCall(x ECall) TV {
 			return tv
 		}
 		env.fail("ret(%s): no such call site seen before this point", key)
+	case "global":
+		name := args[0].(EStr).Val
+		i := strings.LastIndex(name, ".")
+		for _, p := range eng.prog.AllPackages() {
+			if p.Pkg.Path() == name[:i] {
+				if g, ok := p.Members[name[i+1:]].(*ssa.Global); ok {
+					tv := fc.v(g)
+					el, _ := deref(g.Type())
+					return TV{T: fc.loadLoc(tv.L, env.st), S: eng.sorts.sortOf(el), G: el}
+				}
+			}
+		}
+		env.fail("unknown global %s", name)
 	case "heapof":
 		// heapof("F.S_x.f") : the raw heap array in the current state
 		n := args[0].(EStr).Val
